@@ -197,3 +197,80 @@ FAMILIES = [
     Family('reject_delay', fam_reject, quick=dict(mode='delay'), thorough=dict(mode='delay'),
            bounds='delay(p), p in [-5,-1]'),
 ]
+
+
+def fam_successive(E, n=3, real=False):
+    """one activity runs a first ticker inside `until(time == u)` (cut while it pauses between
+    two steps, or while a body runs), and right afterwards a second ticker: what the aborted
+    first one left behind (queued wake-ups, signals) must not move the second one off its grid"""
+    from usim import until
+    m1 = E.pick('mode1', 2)
+    m2 = E.pick('mode2', 2)
+    p1 = E.num('p1', 1, 10, real=real)
+    p2 = E.num('p2', 0, 10, real=real)
+    u = E.num('u', 0, 30, real=real)
+    b1 = E.num('b1', 0, 10, real=real)
+    b2 = [E.num('b2_%d' % j, 0, 5, real=real) for j in range(n)]
+    E.assume(LE(b1, p1), 'bodies of the first ticker fit their period')
+    log = Log()
+
+    async def main():
+        async with until(time == u):
+            async for _ in (interval(p1) if m1 == 0 else delay(p1)):
+                log('t1', 'tick')
+                await (time + b1)
+                log('t1', 'body-end')
+        log('m', 'between')
+        j = 0
+        try:
+            async for t in (interval(p2) if m2 == 0 else delay(p2)):
+                log('t2', 'tick', j, t)
+                if j == n - 1:
+                    break
+                await (time + b2[j])
+                log('t2', 'body-end', j)
+                j += 1
+        except IntervalExceeded:
+            log('t2', 'exceeded', j)
+
+    out = simulate(main(), log=log)
+    bad = classify_run_exception(out.exc, allowed=())
+    E.prove(bad is None, 'run-ends-normally', bad)
+    if out.exc is not None:
+        return
+    bt = log.first('m', 'between')
+    if not E.prove(bt is not None and EQ(bt[2], u), 'first-ticker-cut-at-its-deadline'):
+        return
+    ticks1 = log.of('t1', 'tick')
+    ends1 = log.of('t1', 'body-end')
+    if ticks1 and len(ends1) == len(ticks1):
+        E.reach('first-ticker-cut-while-pausing')
+    start2 = u
+    prev_end = start2
+    for j, tk in enumerate(log.of('t2', 'tick')):
+        if m2 == 0:
+            want = start2 + (j + 1) * p2
+        else:
+            want = prev_end + p2
+        E.prove(EQ(tk[2], want), 'second-ticker-on-its-grid',
+                ('%s(%r) started at %r after an aborted %s(%r): tick %d at %r, expected %r',
+                 'interval' if m2 == 0 else 'delay', p2, start2,
+                 'interval' if m1 == 0 else 'delay', p1, j, tk[2], want))
+        E.prove(EQ(tk[4], tk[2]), 'yielded-time-is-the-tick-time')
+        be = [x for x in log.of('t2', 'body-end') if x[3] == j]
+        if be:
+            prev_end = be[0][2]
+    ex = log.first('t2', 'exceeded')
+    if ex is None:
+        E.prove(len(log.of('t2', 'tick')) == n, 'second-ticker-completes')
+    else:
+        # only legitimate for interval with a body longer than the period
+        j = ex[3]
+        E.prove(m2 == 0 and j >= 1 and GT(b2[j - 1], p2), 'IntervalExceeded-only-when-exceeded')
+
+
+FAMILIES.append(
+    Family('successive', fam_successive, quick=dict(n=2), thorough=dict(n=3),
+           reach=['first-ticker-cut-while-pausing'],
+           bounds='interval / delay (period in [1,10]) cut by until(time == u), u in [0,30], then '
+                  'interval / delay (period in [0,10]) for 2 (thorough 3) ticks in the same activity'))
